@@ -27,8 +27,8 @@ PROPS["C17"] = {
     "assumptions": ["Go int is 64 bit", "models of token.go and errchain are hand written; tied by the correspondence run on every check"],
     "technique": "Lean 4 theorems (run-time errors of the v1 interpreter model are located: runtime_error_located, expression_error_inside_node, runtime_error_root_cause, runtime_error_position_is_token - for all environments, scripts, states and fuel; both lookup routines = declarative line/column specification for all texts and offsets; error-chain store: an append reaches only its own handle, copies are independent, rendering shape; position-carrying parser: it accepts exactly what the parser model accepts and builds the same trees (parse_eq_erase), every stored position is the offset of an input token of the expected kind (positions_are_token_offsets), attribute expressions start at their object, stored positions respect source order) + differential correspondence with token.go, errchain and the real parser's stored positions + executable position specifications on injected faults",
     "level_text": "Kernel-checked: the models of PosCache.LnCol (binary search) and LnCol (linear scan) equal the declarative line/column specification for every byte string and integer offset; in the error-chain store model an append changes exactly one error and a copy shares nothing. "
-                  "Tied to token.go and errchain by exhaustive texts/operation sequences on every check. The position-carrying parser model stores, for every node, the byte offsets of exactly the tokens the property names (kernel-checked for all token lists); it is tied to parser.go by comparing all stored positions on generated trees x layouts. Run-time errors of the v1 interpreter model carry, for every script, state, environment and fuel, a non-empty chain whose links name the running script (or a script reached through use(), root cause first) at stored token positions of that script's statements - inside the node being evaluated (kernel-checked); every run case compares the model's whole chain with the implementation's. Load-time and v2 error positions are decided per generated input on the implementation's own output.",
-    "level_note": "Partial for load-time (parse, check, link) and v2 error positions: decided on generated inputs; run-time error positions of v1 are a theorem about the model. The source-order theorems hold for every source text: lexAll_sorted (from the coverage theorem of C05) discharges the sortedness hypothesis. Block brace positions are not dumped and not modelled. Trusted: Lean kernel; the hand-written models' fidelity is checked by correspondence.",
+                  "Tied to token.go and errchain by exhaustive texts/operation sequences on every check. The position-carrying parser model stores, for every node, the byte offsets of exactly the tokens the property names (kernel-checked for all token lists); it is tied to parser.go by comparing all stored positions on generated trees x layouts. Run-time errors of the v1 interpreter model carry, for every script, state, environment and fuel, a non-empty chain whose links name the running script (or a script reached through use(), root cause first) at stored token positions of that script's statements - inside the node being evaluated (kernel-checked); every run case compares the model's whole chain with the implementation's. The same holds, kernel-checked, for the v2 interpreter model (runtime_error_located_v2: a single link) and for the load-time check pass (check_error_located, generic in the checker table; builtin_check_error_located). Parse and link error positions are decided per generated input on the implementation's own output.",
+    "level_note": "Partial for parse and link error positions: decided on generated inputs; run-time error positions (v1, v2) and check-pass error positions are theorems about the models. The source-order theorems hold for every source text: lexAll_sorted (from the coverage theorem of C05) discharges the sortedness hypothesis. Block brace positions are not dumped and not modelled. Trusted: Lean kernel; the hand-written models' fidelity is checked by correspondence.",
 }
 
 
@@ -259,7 +259,7 @@ _mk("C20",
     extra_tb=["cobra, influxdb1-client, encoding/json, zap (observed through the binary)"], exhaustive=False)
 
 _mk("C18",
-    ["Platypus.Properties.C18", "Platypus.Properties.C18Agree"],
+    ["Platypus.Properties.C18", "Platypus.Properties.C18Agree", "Platypus.Properties.C17Runtime"],
     rule="v2 engine (engine.ParseV2 + Script.Run) with probe functions supplied through the function table (p records, pr records and returns its first argument, void returns nothing, multi returns two values, len): "
          "33 consuming positions (assignment source, condition, operands, arguments, loop clauses, iterable, list/map elements and keys, index, every slice bound, unary, membership, compound assignment, multi-assignment, parenthesis) "
          "x 9 constructs (void call, attribute expression, multi-value calls, empty pr, variable, literal, undefined name, nil); multi-assignment programs; random programs of the shared language "
